@@ -247,6 +247,26 @@ func (s SepCfg) law() *SepLaw {
 			// swallow the error and yield "" with entropy 0
 			return constSep("")
 		}
+		if len(m.Req) > 0 || m.Emptied > 0 {
+			if m.Emptied > 0 {
+				return nil
+			}
+			p := m.SuccessProb()
+			if p.Sign() == 0 {
+				return constSep("")
+			}
+			switch e, _ := refusalExpectation(ratToFloat(p), float64(m.L)*math.Log2(float64(len(m.A))), spg.MaxTrials, spg.MaxFailRate); e {
+			case "error":
+				return constSep("") // refused by the fail-rate check every time: "" with entropy 0
+			case "dontcare":
+				return nil
+			}
+			// accepted: a rare exhaustion of all attempts would yield "" - not an exact law; only
+			// recipes without requirements or refused ones are swept
+			if ratToFloat(p) < 1 {
+				return nil
+			}
+		}
 		l, ok := recipeSepLaw(*s.Recipe, 5000)
 		if !ok {
 			return nil
